@@ -115,6 +115,10 @@ def programs(tier):
     p("phase one: smallest ratio in a structural row", [("x1", NN()), ("x2", NN()), ("x3", NN())], [("r1", [0.0, 3.0, 3.0], "Equal", 6.0), ("r2", [0.0, 1.0, 3.0], "Equal", 2.0), ("r3", [2.0, 3.0, 3.0], "Equal", 10.0)], [1.0, 1.0, 1.0], "Min")
     p("phase one: smallest ratio in a structural row, four columns", [("x1", NN()), ("x2", NN()), ("x3", NN()), ("x4", NN())], [("r1", [0.0, 2.0, 1.0, -1.0], "Equal", 1.0), ("r2", [3.0, 3.0, 3.0, 0.0], "Equal", 6.0), ("r3", [2.0, 0.0, 2.0, 0.0], "Equal", 2.0)], [1.0, 2.0, 1.0, 1.0], "Min")
     p("phase one: negative right-hand side equality", [("x_1", NN()), ("x_2", NN()), ("x_3", NN())], [("r1", [-2.0, -2.0, 2.0], "Equal", -6.0), ("r2", [1.0, 1.0, 1.0], "Equal", 5.0)], [3.0, 2.0, 2.0], "Min")
+    # phase one ends with an artificial variable basic at level zero in a later row whose leaving column also occurs in an
+    # earlier row
+    p("drive-out column occurs in an earlier row", [("x0", NN()), ("x1", NN()), ("x2", NN()), ("x3", NN())], [("r1", [0.0, 1.0, 1.0, 2.0], "Equal", 3.0), ("r2", [-1.0, -2.0, 0.0, 0.0], "Equal", 0.0), ("r3", [-2.0, 0.0, 1.0, 0.0], "Equal", 3.0)], [-2.0, 1.0, -3.0, 2.0], "Max")
+    p("drive-out column occurs in an earlier row, only the origin", [("x0", NN()), ("x1", NN()), ("x2", NN()), ("x3", NN())], [("r1", [1.0, 2.0, 0.0, -2.0], "Equal", 0.0), ("r2", [-2.0, -2.0, -1.0, 0.0], "Equal", 0.0)], [2.0, 3.0, 2.0, -3.0], "Max")
     if tier == "thorough":
         # equality systems with small whole coefficients (two-phase starts of every shape), a fixed pseudo-random sample
         import random as _rnd
